@@ -105,6 +105,19 @@ func (e *Engine) harnessPrim(fn *ssa.Function, name string, args []Value) (Value
 		e.assertPC(tAnd(tCmp("<=", lo, t), tCmp("<=", t, hi)))
 		e.recordPrim("i", t)
 		return t, true
+	case "vpShared":
+		// number of mutable heap objects (pointer targets, slice backing arrays,
+		// maps) reachable from both arguments; strings, functions and opaque
+		// library objects are immutable and do not count
+		seen := map[any]bool{}
+		heapWalk(args[0], seen, nil)
+		n := 0
+		heapWalk(args[1], map[any]bool{}, func(id any) {
+			if seen[id] {
+				n++
+			}
+		})
+		return mkInt(int64(n)), true
 	case "vpBoundarySize":
 		// a size next to one of the integer constants of the named code (current
 		// SSA): c-1, c, c+1 for each constant 2 < c <= max, and max itself - the
@@ -679,4 +692,57 @@ func (e *Engine) findMethod(t types.Type, name string) *ssa.Function {
 		}
 	}
 	return nil
+}
+
+// heapWalk visits the mutable heap objects reachable from v once each.
+func heapWalk(v Value, seen map[any]bool, visit func(id any)) {
+	mark := func(id any) bool {
+		if seen[id] {
+			return false
+		}
+		seen[id] = true
+		if visit != nil {
+			visit(id)
+		}
+		return true
+	}
+	switch x := v.(type) {
+	case PtrVal:
+		if x.slot != nil && mark(x.slot) {
+			switch (*x.slot).(type) {
+			case *AbsKey, *AbsSet, *AbsSigner, *OptVal, *FmtErr, *RegexObj:
+				return
+			}
+			heapWalk(*x.slot, seen, visit)
+		}
+	case *StructVal:
+		for _, f := range x.fields {
+			heapWalk(f, seen, visit)
+		}
+	case *ArrayVal:
+		for _, f := range x.elems {
+			heapWalk(f, seen, visit)
+		}
+	case SliceVal:
+		if x.arr != nil && x.cap > 0 && mark(x.arr) {
+			for i := 0; i < x.len; i++ {
+				heapWalk(x.arr.elems[x.off+i], seen, visit)
+			}
+		}
+	case MapVal:
+		if x.m != nil && mark(x.m) {
+			for _, en := range x.m.entries {
+				heapWalk(en.key, seen, visit)
+				heapWalk(en.val, seen, visit)
+			}
+		}
+	case IfaceVal:
+		if x.typ != nil {
+			heapWalk(x.val, seen, visit)
+		}
+	case TupleVal:
+		for _, f := range x {
+			heapWalk(f, seen, visit)
+		}
+	}
 }
